@@ -174,6 +174,7 @@ def T(mod, *names, kind="full"):
     return [dict(name=f"Lz4V.Props.{mod}.{n}", kind=kind, module=f"Lz4V.Props.{mod}") for n in names]
 
 T_FAST = T("C01fast", "decode_emitAll", "c11_fast", "c01_fast")
+T_HC = T("C01hc", "c11_hc", "c01_hc")
 T_GO = T("C04go", "c03_go") + T("C04go", "c04_go_partial", "c04_go_indep_partial", kind="full under the model's documented assumption len(dst) < 2^63") \
     + T("C04go", "c04_go_unbounded_false", kind="counterexample (model artefact: fixed doubling fuel)")
 
@@ -181,7 +182,13 @@ def x_c19(run):
     pass
 
 
+def x_c20(run):
+    from .c20 import x_c20 as f
+    f(run)
+
 PROPS = {
+    "C20": dict(runs=[], extra=[x_c20], theorems=[],
+                rule="each case = (flag set, generated file, mode, file or stdin/stdout); every case is non-trivial; distinct = distinct case description"),
     "C02": dict(runs=[FW("fw", judge=j_c02w), FR("fr", judge=j_c02r)], theorems=[]),
     "C05": dict(runs=[FR("frmut", judge=j_c05), FR("fr", judge=j_c05)], theorems=[]),
     "C06": dict(runs=[FR("frtrunc", judge=j_c06)], theorems=[]),
@@ -190,11 +197,14 @@ PROPS = {
     "C15": dict(runs=[FW("fwfail", judge=j_c15w), FR("frfail", judge=j_c15r)], theorems=[]),
     "C16": dict(runs=[FR("fr", judge=j_c16)], theorems=[]),
     "C17": dict(runs=[FW("fwlife", judge=j_c17w), FR("fr", judge=j_c17r)], theorems=[]),
-    "C01": dict(runs=[dict(CMP, judge=j_c01)], theorems=T_FAST),
+    "C01": dict(runs=[dict(CMP, judge=j_c01)], theorems=T_FAST + T_HC),
     "C03": dict(runs=[dict(DEC_ASM, judge=j_c03), dict(DEC_GO, judge=j_c03)], theorems=T("C04go", "c03_go")),
     "C04": dict(runs=[dict(DEC_ASM, judge=j_c04), dict(DEC_GO, judge=j_c04)], theorems=T_GO),
-    "C10": dict(runs=[dict(CMP, judge=j_c10)], theorems=T("C01fast", "c11_fast")),
-    "C11": dict(runs=[dict(CMP, judge=j_c11)], theorems=T("C01fast", "c11_fast")),
+    "C10": dict(runs=[dict(CMP, judge=j_c10)], theorems=T("C01fast", "c11_fast") + T("C01hc", "c11_hc")),
+    "C11": dict(runs=[dict(CMP, judge=j_c11)], theorems=T("C01fast", "c11_fast") + T("C01hc", "c11_hc")),
+    "C18": dict(runs=[dict(family="cr", variant="asm", kview=kview_w, nontrivial=nontrivial_sess,
+                           judge=j_and(j_orc("frame"), j_notes(r"NO-PROGRESS|BADCOUNT|READ-AFTER-EOF|SOURCE-ERROR-NOT-PASSED|NO-EOF", "compressing reader contract broken",
+                                                               "n<=len(p), progress, one valid frame, io.EOF, source error passed through")))], theorems=[]),
     "C19": dict(runs=[dict(family="hdr", variant="asm", kview=lambda l: l.split(" ; ")[0].strip(), nontrivial=lambda c, i: "acc=" in i and not i.startswith("acc= "),
                       judge=j_notes(r"HDR-MISMATCH\S*", "header acceptance not exact", "accepted iff checksum byte right and block-size code in 4..7; distinct errors; Size unchanged"))],
                theorems=[], exhaustive_thorough=True),
